@@ -22,6 +22,7 @@ Inductive err :=
 | EIndex              (* IndexError *)
 | EType               (* TypeError *)
 | EZeroDiv            (* ZeroDivisionError: Python float division by zero *)
+| ELinAlg             (* numpy.linalg.LinAlgError: singular Jacobian *)
 | EValue              (* ValueError raised by a numerical kernel's input check *)
 | ENanArith           (* a NaN would enter the books (model refuses; Python records NaN) *)
 | EOutOfFuel          (* model artefact: recursion level exhausted; must never be observed *)
